@@ -191,7 +191,9 @@ class Report:
             print('KNOWN-FINDING: property=%s %s' % (self.pid, k['what']))
         seen = set()
         n = 0
-        for key, what, payload, found in self.violations:
+        # failing inputs first; then what no longer checks
+        ordered = [v for v in self.violations if v[3]] + [v for v in self.violations if not v[3]]
+        for key, what, payload, found in ordered:
             if key in seen:
                 continue
             seen.add(key)
